@@ -291,8 +291,10 @@ class PaxosNode(Entity):
         self._phase1_responses[ballot_number].append(response)
         self._promises_received += 1
 
-        # Check if we have a quorum
-        if len(self._phase1_responses[ballot_number]) >= self.quorum_size:
+        # Start phase 2 exactly once, when the quorum is first reached: a later
+        # promise must not re-run it, or the same ballot could be sent out again
+        # with a different value.
+        if len(self._phase1_responses[ballot_number]) == self.quorum_size:
             return self._start_phase2(ballot_number)
 
         return []
